@@ -5,6 +5,7 @@ world-level statement with its counter-witness for the offset table (known findi
 -/
 import Cntgs.AllocProofs
 import Cntgs.World
+import Cntgs.OwnProofs
 namespace Cntgs.C07
 
 /-- every block is obtained from the allocator with the recorded size; the new pointer owns it -/
@@ -70,5 +71,23 @@ theorem no_leak_partial (w : World) (k : Nat) (v : Vec) (hv : w.vecs k = some v)
   obtain ⟨_, _, h3⟩ := dealloc_owned w.heap hw w.acfg v.S v.ptr ho
   obtain ⟨hm, hne⟩ := (h3 b).mp hb
   exact hne (honly b hm hk)
+
+/-- **the property for the data blocks, on whole histories**: starting from nothing, after ANY history of constructions,
+    in-place operations, reserves, copy/move constructions, copy/move assignments, swaps and destructions over any number
+    of vectors — whichever allocations throw — the ledger has recorded no double free, no free with a wrong size and no
+    free through an unequal allocator; every live data block is owned by exactly one vector; once every vector is
+    destroyed no data block is live.  (What stays live then are offset tables: `no_leak_counter_witness`, known finding.) -/
+theorem data_blocks_returned_exactly_once (c : ACfg) (ops : List OOp) (hv : OValid ({ acfg := c } : World) ops) :
+    let w := ops.foldl OOp.apply ({ acfg := c } : World)
+    w.heap.errs = [] ∧
+    (∀ b ∈ w.heap.live, b.kind = .data → ∃ k v, w.vecs k = some v ∧ v.blk = some b.serial) ∧
+    ((∀ k, w.vecs k = none) → ∀ b ∈ w.heap.live, b.kind = .table) :=
+  no_leak_no_error c ops hv
+
+/-- in every reachable state every vector owns a live block of exactly its recorded size from an allocator equal to its
+    own, and no block has two owners -/
+theorem ownership_invariant (c : ACfg) (ops : List OOp) (hv : OValid ({ acfg := c } : World) ops) :
+    WOwn (ops.foldl OOp.apply ({ acfg := c } : World)) :=
+  (WOwn.init c).history ops hv
 
 end Cntgs.C07
